@@ -8,6 +8,7 @@ import (
 	stdlog "log"
 	"os"
 	"os/signal"
+	"runtime"
 	"runtime/debug"
 	"sort"
 	"strings"
@@ -52,6 +53,7 @@ type Result struct {
 	Trans   []string       `json:"trans,omitempty"`
 	Shape   string         `json:"shape,omitempty"`
 	WallUs  int64          `json:"wall_us"`
+	MemMB   int            `json:"mem_mb"` // memory obtained from the OS by this worker process after the run
 	SigHits map[string]int `json:"sig_hits,omitempty"`
 	Desc    string         `json:"desc,omitempty"` // one-line description of the generated case
 }
@@ -205,6 +207,9 @@ func Execute(t *testing.T, job *Job) (res Result) {
 		res.SigHits = r.Sched.SigHits
 	}
 	res.WallUs = time.Since(start).Microseconds()
+	var ms runtime.MemStats
+	runtime.ReadMemStats(&ms)
+	res.MemMB = int(ms.Sys >> 20)
 	return res
 }
 
